@@ -57,6 +57,11 @@ def cases(tier, seed):
     for names in (["point", "extended"], ["blend2", "negative"], ["blend3", "small"]):
         for gap in (3, 5):
             yield "blankrms", dict(names=names, gap=gap)
+    # other threshold pairs, incl. a flood clip ABOVE the seed clip (the finder then floods at the seed level) together with
+    # island rows: each option is harmless alone
+    for names in (["point", "extended", "small"], ["blend2", "tiny", "negative"]):
+        for clips in ([3, 4], [5, 5], [6, 3], [4, 10], [8, 4]):
+            yield "clips", dict(names=names, clips=clips)
     yield "big", dict(kind="blank")
     yield "big", dict(kind="nan_image")
     yield "big", dict(kind="grid7")
@@ -273,6 +278,44 @@ def ev_rejects(case, ctx):
     for p_ in (f, f2):
         if os.path.exists(p_):
             os.remove(p_)
+
+
+def ev_clips(case, ctx):
+    from AegeanTools.models import ComponentSource, IslandSource
+    d = os.environ["VERIF_SCRATCH"]
+    names = case["names"]
+    seed_clip, flood_clip = case["clips"]
+    hdr, img, srcs = scenes.build_scene(names)
+    f = os.path.join(d, "c03c.fits")
+    scenes.write_image(f, hdr, img)
+    img32 = np.asarray(img, dtype=np.float32).astype(np.float64)
+    sig = "clips=%s,seed=%g,flood=%g" % ("+".join(names), seed_clip, flood_clip)
+    eff_flood = min(seed_clip, flood_clip)
+    res = {}
+    try:
+        for mode, kw in (("blind", {}), ("island", dict(doislandflux=True))):
+            ctx.count("runs")
+            msig = "%s,mode=%s" % (sig, mode)
+            try:
+                out = scenes.finder().find_sources_in_image(f, rms=scenes.RMS, bkg=0.0, cores=1, docov=False, nonegative=False,
+                                                            innerclip=seed_clip, outerclip=flood_clip, **kw)
+            except Exception as e:
+                ctx.violation("%s run with innerclip=%g outerclip=%g raised %r (%s)" % (mode, seed_clip, flood_clip, e, sig), "raise|" + msig)
+                continue
+            comps = [s_ for s_ in out if isinstance(s_, ComponentSource)]
+            isles = [s_ for s_ in out if isinstance(s_, IslandSource)]
+            res[mode] = comps
+            ctx.outcome("clips_n=%d" % len(comps))
+            if comps:
+                ctx.nontrivial(msig)
+            check_components(comps, ctx, msig)
+            if mode == "island":
+                check_islands(isles, comps, img32, hdr, ctx, msig, seed_clip=seed_clip, flood_clip=eff_flood)
+        if "blind" in res and "island" in res and catalogue_key(res["blind"]) != catalogue_key(res["island"]):
+            ctx.violation("components differ between the blind and the blind+island run (%s)" % sig, "island_mode_changes_components|" + sig)
+    finally:
+        if os.path.exists(f):
+            os.remove(f)
 
 
 def ev_blankrms(case, ctx):
@@ -503,4 +546,4 @@ def ev_cli(case, ctx):
 
 
 def evaluate(clause, case, ctx):
-    dict(scene=ev_scene, big=ev_big, history=ev_history, cli=ev_cli, rejects=ev_rejects, blankrms=ev_blankrms)[clause](case, ctx)
+    dict(scene=ev_scene, big=ev_big, history=ev_history, cli=ev_cli, rejects=ev_rejects, blankrms=ev_blankrms, clips=ev_clips)[clause](case, ctx)
